@@ -275,7 +275,13 @@ class View:
         return any(e[1] == "start" for _i, e in self.task_events(t, 0, pos))
 
     def cancelled_resume_before(self, t: int, pos: int) -> bool:
-        return any(e[1] == "resume" and e[3] == "cancelled" for _i, e in self.task_events(t, 0, pos))
+        # a CancelledError was delivered to t before: at a gate of its own code, or while it waited inside a disposable's
+        # __aenter__/__aexit__ (then the log shows the disposable / the block / a handler ending `Cancelled`)
+        return any((e[1] == "resume" and e[3] == "cancelled")
+                   or (e[1] in ("dened", "dexed") and e[3] == "Cancelled")
+                   or (e[1] == "left" and e[3] == "Cancelled")
+                   or (e[1] == "caught" and e[2] == "Cancelled")
+                   for _i, e in self.task_events(t, 0, pos))
 
     def reaped_before(self, t: int, pos: int) -> bool:
         """the task ended and the loop has been quiescent since (so its done-callbacks have certainly run)"""
@@ -624,6 +630,11 @@ DIRECTED = [
             ["spawn", 2, "spawn", [["await", 3]]]]), ["await", 9]],
     # two nested async scopes, members in both, cancellation in the inner exit wait
     [_a(1, [["spawn", 1, "spawn", [["await", 5]]], _a(2, [["spawn", 2, "spawn", _SLOW]]), ["await", 4]]), ["await", 9]],
+    # a member that is cancelled while it waits inside a disposable's cleanup, catches that, and goes on; a second request on
+    # the owner then does not re-cancel it (TaskGroup aborts once) – user code's business, not a lost cancellation
+    # (false alarm of the first monitor, which only recognised cancellations delivered at a gate of the member's own code)
+    [_a(12, [["spawn", 1, "spawn", [_a(2, [], [[1, ["wait", 1], "ok", []]])]],
+             ["spawn", 2, "spawn", [["try", [_a(8, [], [[5, "ok", ["wait", 5], []]])]], ["await", 7]]]])],
     # scope objects constructed ahead of their `async with` (`hold`): before the enclosing scope exists and entered inside
     # it – spawns in the enclosing body after the inner block still join the enclosing group; constructed inside a scope
     # that has ended and entered outside any scope – a spawn afterwards is detached, never refused
